@@ -24,6 +24,7 @@ def check(ctx, fn, rule, to_free_bit, req_null):
     bad = None
     bad_status = None
     bad_unknown = None
+    bad_shortcut = None
     for nput in range(0, 4):
         for nget in range(0, 3):
             put_ids = [2 * (k + 1) for k in range(nput)]
@@ -67,6 +68,9 @@ def check(ctx, fn, rule, to_free_bit, req_null):
                             # a list naming an id that is not pending: shortcut lists (as long as a whole queue, no status array)
                             # are the caller's statement that it names the whole queue; every other list must be refused whole
                             whole = (not with_status) and (ln == nput + nget or (nget == 0 and ln == nput) or (nput == 0 and ln == nget))
+                            if whole and bad_shortcut is None and (not env.get("$ret") or marked):
+                                bad_shortcut = (put_ids, get_ids, ids, "the call answers %s and marks request(s) %s for completion" %
+                                                ("NC_NOERR" if not env.get("$ret") else "an error", sorted(marked)))
                             if not whole and bad_unknown is None:
                                 if not env.get("$ret"):
                                     bad_unknown = (put_ids, get_ids, ids, "the call answers NC_NOERR")
@@ -113,4 +117,13 @@ def check(ctx, fn, rule, to_free_bit, req_null):
                  (put_ids, get_ids, show_ids, why), fn=fn, line=fn.line, inst=inst)
     else:
         ctx.ok(rule, inst, "a list that names an id which is not pending is refused and leaves no request marked")
+    inst = "%s:unknown-shortcut" % fn.name
+    if bad_shortcut:
+        put_ids, get_ids, ids, why = bad_shortcut
+        show_ids = ["NC_REQ_NULL" if y == req_null else ("<unknown id %d>" % y if y in (UNKNOWN_PUT, UNKNOWN_GET) else y) for y in ids]
+        ctx.fail(rule, fn.name, "unknown-shortcut", "pending put ids %s, get ids %s, waiting for %s without a status array - a list as long as "
+                 "a pending queue is taken for that whole queue without looking at the ids: %s (a request that was not named is "
+                 "completed, the unknown id is accepted)" % (put_ids, get_ids, show_ids, why), fn=fn, line=fn.line, inst=inst)
+    else:
+        ctx.ok(rule, inst, "lists as long as a pending queue are still checked id by id")
     return n
